@@ -260,6 +260,44 @@ def check_startmethod(sc, ctx):
         ctx.nontrivial_case({"args": args2, "method": sc["method"]})
 
 
+# ----------------------------------------------------------------- names whose extension is not all lower case
+@st.composite
+def namecase_case(draw):
+    sc = draw(input_case("namecase"))
+    sc["ext"] = draw(st.sampled_from([".FASTA", ".FA", ".Fasta", ".fAsTa", ".FASTQ", ".FQ", ".Fq"]))
+    sc["conts"] = draw(st.lists(st.sampled_from(OUT_CONT[1:]), min_size=1, max_size=2, unique=True))
+    return sc
+
+
+def check_namecase(sc, ctx):
+    """Whatever format a name such as OUT.FASTA or reads.Fq asks for, it must be the same format - and the same
+    records - for every compression suffix and every number of cores (nothing is assumed about which format)."""
+    ext = sc["ext"]
+    ref = None
+    for outc in ["plain"] + sc["conts"]:
+        for cores in (1, 2):
+            combo = ["plain", "two", outc, "two", ext, cores, "fastq"]
+            args, streams, fmts = run_combo(sc, combo)
+            fm = sorted({f for f in fmts if f is not None})
+            if not fm:
+                continue
+            if ref is None:
+                ref = (fm, args, streams)
+                continue
+            if fm != ref[0]:
+                raise Violation(f"output name with extension {ext}: format {fm} with {outc} output and {cores} core(s) "
+                                f"({args}), but {ref[0]} with plain output and one core ({ref[1]})",
+                                observed=fm, expected=ref[0], tag="format")
+            wq = fm == ["fastq"]
+            if project(streams, wq) != project(ref[2], wq):
+                raise Violation(f"output name with extension {ext}: records with {outc} output and {cores} core(s) differ "
+                                f"from plain output and one core ({args})", observed=project(streams, wq),
+                                expected=project(ref[2], wq), tag="records")
+    ctx.label(f"ext:{ext}")
+    if ref is not None:
+        ctx.nontrivial_case({"ext": ext, "conts": sc["conts"], "args": ref[1]})
+
+
 @st.composite
 def mixed_case(draw):
     sc = draw(input_case("mixed"))
@@ -350,6 +388,7 @@ def check_mixed(sc, ctx):
 
 SUBS = {
     "mixed": Sub(strategy=lambda tier: mixed_case(), check=check_mixed),
+    "namecase": Sub(strategy=lambda tier: namecase_case(), check=check_namecase),
     "startmethod": Sub(strategy=lambda tier: startmethod_case(), check=check_startmethod),
     "sample": Sub(strategy=lambda tier: input_case("sample"), check=check_sample),
     "product": Sub(check=check_sample, sweep=sweep_product),
@@ -361,8 +400,10 @@ def plan(tier):
         return [{"sub": "sample", "kind": "hyp", "examples": 60} for _ in range(7)] + \
                [{"sub": "mixed", "kind": "hyp", "examples": 150} for _ in range(3)] + \
                [{"sub": "startmethod", "kind": "hyp", "examples": 8} for _ in range(2)] + \
+               [{"sub": "namecase", "kind": "hyp", "examples": 25}] + \
                [{"sub": "product", "kind": "sweep", "input": i % 3, "part": i, "of": 8, "limit": 60} for i in range(8)]
     return [{"sub": "sample", "kind": "hyp", "examples": 1500} for _ in range(6)] + \
            [{"sub": "mixed", "kind": "hyp", "examples": 4000} for _ in range(3)] + \
            [{"sub": "startmethod", "kind": "hyp", "examples": 150} for _ in range(2)] + \
+           [{"sub": "namecase", "kind": "hyp", "examples": 600}] + \
            [{"sub": "product", "kind": "sweep", "input": i % 3, "part": i // 3, "of": 4} for i in range(12)]
